@@ -415,6 +415,38 @@ let stats_line line =
       end
   | _ -> "unknown"
 
+(* view: <rdh|frames|data> <file|pipe> <filter> <hex input> -- the rows of a view, batch by batch, as tokens *)
+let view_line line =
+  match split_ws line with
+  | [ which; src; filter; hex ] ->
+      let input = if hex = "-" then [] else bytes_of_hex hex in
+      if List.length input < 64 then "SHORT"
+      else begin
+        let c = parse_scfg src filter (if which = "rdh" then "1" else "0") in
+        let out = scan_impl c input in
+        let nl l = String.concat "," (List.map (fun x -> string_of_int (int_of_n x)) l) in
+        let kind = function VK_data -> "DATA" | VK_tdh -> "TDH" | VK_tdt -> "TDT" | VK_ihw -> "IHW" | VK_ddw0 -> "DDW" | VK_cdw -> "CDW" in
+        let row = function
+          | VR_rdh (o, v) -> Printf.sprintf "R:%X:%s" (int_of_n o) (nl v)
+          | VR_frdh (o, v) -> Printf.sprintf "H:%X:%s" (int_of_n o) (nl v)
+          | VR_word (o, k, b, a) -> Printf.sprintf "W:%X:%s:%s:%s" (int_of_n o) (kind k) (hex_of_bytes b) (nl a)
+          | VR_unknown (o, b) -> Printf.sprintf "U:%X:%s" (int_of_n o) (hex_of_bytes b) in
+        let buf = Buffer.create 4096 in
+        let stop = ref false in
+        List.iter (fun batch ->
+          if not !stop then begin
+            let rows, e =
+              if which = "rdh" then (view_rdh batch, VE_done) else view_frames (which = "data") batch in
+            List.iter (fun r -> Buffer.add_string buf (row r); Buffer.add_char buf ' ') rows;
+            (match e with
+             | VE_done -> ()
+             | VE_payload_error o -> Buffer.add_string buf (Printf.sprintf "END:payload_error:%X " (int_of_n o)); stop := true
+             | VE_panic s -> Buffer.add_string buf (Printf.sprintf "END:panic:%d " (int_of_n s)); stop := true)
+          end) out.so_batches;
+        String.trim (Buffer.contents buf)
+      end
+  | _ -> "BAD"
+
 (* cli: one whole run in a check mode.
    <all|sanity> <none|its|stave> <filter> <mute 0|1> <cap> <w codes -|a,b> <E -|n> <cdps -|n> <pht -|n> <period -|n> <file|pipe> <hex> *)
 let cli_line line =
@@ -460,6 +492,7 @@ let () =
     | "collector" -> collector_line
     | "stats" -> stats_line
     | "cli" -> cli_line
+    | "view" -> view_line
     | "statscmp" -> statscmp_line
     | "statsfile" -> statsfile_line
     | "wordspec" -> wordspec_line
